@@ -70,7 +70,25 @@ func (r *Result) violate(sig, msg string) {
 	}
 	r.Verdict = "violation"
 	r.Sig = sig
-	r.Msg = msg
+	r.Msg = squeezeRuns(msg)
+}
+
+// squeezeRuns shortens runs of one repeated byte (names of tens of kilobytes) in messages: "wwww...w" -> "w{70000}".
+func squeezeRuns(s string) string {
+	var b strings.Builder
+	for i := 0; i < len(s); {
+		j := i
+		for j < len(s) && s[j] == s[i] {
+			j++
+		}
+		if j-i > 40 {
+			fmt.Fprintf(&b, "%c{%d}", s[i], j-i)
+		} else {
+			b.WriteString(s[i:j])
+		}
+		i = j
+	}
+	return b.String()
 }
 
 type Engine struct {
@@ -109,7 +127,12 @@ func beat() { globalProgress.Add(1) }
 // began. A step that produces more than stepBudget seam events without finishing is a livelock: a logical bound, not a deadline.
 var stepMark atomic.Int64
 
-const stepBudget = 400_000
+const stepBudgetDefault = 400_000
+
+// stepBudget is raised by the few cases that legitimately move gigabytes through the drive in one step (8 KiB per drive read).
+var stepBudget atomic.Int64
+
+func init() { stepBudget.Store(stepBudgetDefault) }
 
 func stepBegin() { stepMark.Store(globalProgress.Load()) }
 
@@ -256,13 +279,13 @@ func runWorker(prop, tier, casesPath, outPath, scratch string, shard, of int, sk
 				break wait
 			case <-tick.C:
 				cur := globalProgress.Load()
-				if cur-stepMark.Load() > stepBudget {
+				if cur-stepMark.Load() > stepBudget.Load() {
 					buf := make([]byte, 8<<20)
 					n := runtime.Stack(buf, true)
 					_, summary := classifyDump(string(buf[:n]))
 					what, _ := currentNote.Load().(string)
-					fmt.Fprintf(os.Stderr, "WATCHDOG case=%s livelock: more than %d seam events in one step (%s)\n%s\n", c.ID, stepBudget, what, string(buf[:n]))
-					r := Result{Case: c.ID, Verdict: "violation", Sig: "livelock|" + hangSig(summary), Msg: fmt.Sprintf("call never returned: it performed more than %d drive/index-store events without finishing (%s): %s", stepBudget, what, summary), Detail: map[string]any{"case": c}}
+					fmt.Fprintf(os.Stderr, "WATCHDOG case=%s livelock: more than %d seam events in one step (%s)\n%s\n", c.ID, stepBudget.Load(), what, string(buf[:n]))
+					r := Result{Case: c.ID, Verdict: "violation", Sig: "livelock|" + hangSig(summary), Msg: fmt.Sprintf("call never returned: it performed more than %d drive/index-store events without finishing (%s): %s", stepBudget.Load(), what, summary), Detail: map[string]any{"case": c}}
 					emit("R", r)
 					tick.Stop()
 					return 3
